@@ -30,6 +30,8 @@ FAMILIES = {
     "digits": (gen_cfg("SEQ", kinds='{"chunk"}', maxlen=0, L='"DIGITS"'), 1, 4),
     "code_q": (gen_cfg("SEQ", caps="{100000}", kinds='{"resp"}', maxlen=0, cfgs="{0, 2}", L='"CODE"'), 1, 8),
     "lines_q": (gen_cfg("SEQ", caps="{0, 1, 2}", kinds='{"req", "resp", "hdrs"}', phases='{"HLINE"}', L='"LINES"'), 8, 2),
+    "methods": (gen_cfg("SEQ", caps="{1, 100000}", kinds='{"req"}', maxlen=0, L='"METHODS"'), 2, 4),
+    "versions": (gen_cfg("SEQ", caps="{100000}", kinds='{"req", "resp"}', maxlen=0, cfgs="{0, 1, 2}", L='"VERSIONS"'), 2, 4),
     # ---------------- thorough tier
     "byte_t": (gen_cfg("BYTE", caps="{0, 1, 2, 100000}", follow="{10, 13, 32, 58, 97}"), 8, 2),
     "ext_t": (gen_cfg("EXT", caps="{0, 1, 2, 100000}", alpha=ALPHA11, L="3"), 8, 2),
